@@ -674,7 +674,11 @@ func (l *Log) buildQuery(ob *Obligation, extraPrelude string, focused bool) stri
 			if i < nPrelude && !all {
 				any = preludeRelevant(s, rel)
 			}
-			if all || (i < nPrelude && any) {
+			// short ground facts that touch the slice (type invariants such as 0 <= len <= cap, range facts, branch
+			// conditions) are kept too: they are cheap, and without them a goal about one leaf of a value never sees
+			// the invariant that ties it to its sibling leaves
+			small := i >= nPrelude && any && len(s.text) <= 1500 && !strings.Contains(s.text, "(forall ") && !strings.Contains(s.text, "(exists ")
+			if all || (i < nPrelude && any) || small {
 				included[i] = true
 				for sym := range s.syms {
 					extraDecl[sym] = true // the functions they mention must be declared, but do not widen the slice
